@@ -14,7 +14,7 @@ d,prop,rnd,base,change,needs,caught,hist,name=sys.argv[1:10]
 meta={
  "property_broken":prop,
  "round":int(rnd),
- "origin":("written by a fresh sub-agent that saw the property texts, its own property to break, a list of the 79 earlier seeded faults with their triggers, a paragraph describing what kind of tester hunts the fault, and a scratch worktree of the repository (no file of /verif)" if int(rnd) >= 6 else "written by a fresh sub-agent that saw only the property texts, a one-line list of the earlier seeded faults, a scratch worktree of the repository and a trigger dimension to use (nothing from /verif)" if int(rnd) == 5 else "written by a fresh sub-agent that saw only the property texts, a scratch worktree of the repository and a pipeline stage to work in (nothing from /verif)"),
+ "origin":("written by a fresh sub-agent that saw the property texts, its own property to break, a list of the 94 earlier seeded faults with their triggers, a detailed description of everything the tester generates and compares (it was asked for a dimension that description does not mention), and a scratch worktree of the repository (no file of /verif)" if int(rnd) >= 7 else "written by a fresh sub-agent that saw the property texts, its own property to break, a list of the 79 earlier seeded faults with their triggers, a paragraph describing what kind of tester hunts the fault, and a scratch worktree of the repository (no file of /verif)" if int(rnd) >= 6 else "written by a fresh sub-agent that saw only the property texts, a one-line list of the earlier seeded faults, a scratch worktree of the repository and a trigger dimension to use (nothing from /verif)" if int(rnd) == 5 else "written by a fresh sub-agent that saw only the property texts, a scratch worktree of the repository and a pipeline stage to work in (nothing from /verif)"),
  "base_commit":base,
  "change":change,
  "needs_to_manifest":needs,
